@@ -689,7 +689,10 @@ class TimeArray(TimeBase):
         Returns:
             Numpy-float scalar or array with difference between `jd1` and the integer part of Julian Day.
         """
-        return self.jd1 - (np.floor(self.jd - 0.5) + 0.5)
+        # Find whole days on the day part and the (small) rest separately, a single float Julian date only resolves 40 us
+        day = np.floor(self.jd1 - 0.5)
+        rest = (self.jd1 - 0.5 - day) + self.jd2
+        return self.jd1 - (day + np.floor(rest) + 0.5)
 
     @property
     @lru_cache()
